@@ -5,7 +5,7 @@ claim("C16",
       "DESIGN.md section 4, C16")
 claim("C01",
       "exhaustive token-sequence enumeration + rapid trees/strings + adversarial big shapes under recover and a watchdog",
-      "Every token sequence up to a stated length over the alphabets (37-token full, 22-token class-reduced, four 10/11-token focus alphabets incl. comparisons) plus the range frames (token sequences around one complete range), random printed trees in all layouts, single hostile terms, random bytes / hostile fragments / token soups, and about 40 adversarial shapes of thousands of tokens, each with and without a default field, are pushed through Parse, ToPostgres, ToParameterizedPostgres, String, %#v and json.Marshal; any panic, any %! marker (inputs without %) and any call on a small input that does not return within 20 s is a violation. Growth ratios on doubling are recorded as evidence for 'polynomial', not used as a verdict.",
+      "Every token sequence up to a stated length over the alphabets (37-token full, 22-token class-reduced, four 10/11-token focus alphabets incl. comparisons) plus the range frames (token sequences around one complete range), random printed trees in all layouts, single hostile terms, random bytes / hostile fragments / token soups, and about 40 adversarial shapes of thousands of tokens, each with and without a default field, are pushed through Parse, ToPostgres, ToParameterizedPostgres, String, %#v and json.Marshal; any panic, any %! marker (unless the query or the default field itself contains the two bytes %!) and any call on a small input that does not return within 20 s is a violation. Growth ratios on doubling are recorded as evidence for 'polynomial', not used as a verdict.",
       "Absence of panics is shown only for the explored inputs. 'Polynomial time' is evidenced (growth table), only hangs are decided. Native fuzzing (thorough) is not seedable.",
       "DESIGN.md section 4, C01")
 claim("C10",
